@@ -20,7 +20,7 @@ func init() {
 			}
 			var out []sym.CaseSpec
 			for kind := 0; kind <= 1; kind++ {
-				for seed := 0; seed <= 1; seed++ {
+				for seed := 0; seed <= 2; seed++ {
 					pow := 1
 					for steps := 1; steps <= maxSteps; steps++ {
 						pow *= 10
